@@ -496,3 +496,45 @@ impl Drop for PipeWriter {
         drop(w);
     }
 }
+
+/// Cross-connects two `Conn`s so that two real zmq.rs sockets talk to each
+/// other: what the socket on `a` writes becomes readable on `b` and vice
+/// versa. Moving bytes is a harness action (`pump`), so delivery stays under
+/// schedule control and both taps stay inspectable.
+pub struct Wire {
+    pub a: Conn,
+    pub b: Conn,
+    a_pos: usize,
+    b_pos: usize,
+}
+
+impl Wire {
+    pub fn new(a: Conn, b: Conn) -> Wire {
+        Wire { a, b, a_pos: 0, b_pos: 0 }
+    }
+
+    /// Bytes written on either side and not yet moved to the other.
+    pub fn in_flight(&self) -> (usize, usize) {
+        (self.a.tap_len() - self.a_pos, self.b.tap_len() - self.b_pos)
+    }
+
+    /// Move at most `max` bytes in each direction; returns how many moved.
+    pub fn pump(&mut self, max: usize) -> usize {
+        let mut moved = 0;
+        let fa = self.a.tap_from(self.a_pos);
+        if !fa.is_empty() {
+            let n = fa.len().min(max);
+            self.b.feed(&fa[..n]);
+            self.a_pos += n;
+            moved += n;
+        }
+        let fb = self.b.tap_from(self.b_pos);
+        if !fb.is_empty() {
+            let n = fb.len().min(max);
+            self.a.feed(&fb[..n]);
+            self.b_pos += n;
+            moved += n;
+        }
+        moved
+    }
+}
